@@ -735,6 +735,16 @@ def rule_r12(ctx) -> RuleResult:
     return rr
 
 
+def rule_r13(ctx) -> RuleResult:
+    """'no internal placeholder character appears anywhere in the tree': while a page is being parsed
+    the cookie table only grows (shared with C15.R5) -- the parser is re-entered from the encoder for
+    links, so clearing the table at the end of a parse renumbers cookies that are still in use."""
+    from ..core.report import shared
+    from . import c15
+
+    return shared(c15.rule_r5(ctx), "C01.R13", "the cookie table is not reset by the parser (shared with C15.R5)",
+                  "placeholder characters whose entry was dropped stay in the tree or resolve to another construct", min_instances=6)
+
 def run(ctx) -> list:
     return [rule_r1(ctx), rule_r2(ctx), rule_r3(ctx), rule_r4(ctx), rule_r5(ctx), rule_r6(ctx), rule_r7(ctx), rule_r8(ctx),
-            rule_r9(ctx), rule_r10(ctx), rule_r11(ctx), rule_r12(ctx)]
+            rule_r9(ctx), rule_r10(ctx), rule_r11(ctx), rule_r12(ctx), rule_r13(ctx)]
